@@ -208,7 +208,11 @@ pub fn finish(mut report: Report) -> i32 {
         "wall_s": wall,
         "violations": new_violations.len(),
     });
-    let dir = PathBuf::from(VERIF_DIR).join("evidence");
+    // runs against a deliberately broken tree (seedrun.sh) keep their evidence apart from the registered one
+    let dir = match std::env::var("VERIF_EVIDENCE_DIR") {
+        Ok(d) if !d.is_empty() => PathBuf::from(d),
+        _ => PathBuf::from(VERIF_DIR).join("evidence"),
+    };
     let _ = std::fs::create_dir_all(&dir);
     std::fs::write(dir.join(format!("{}.json", report.property)), serde_json::to_string_pretty(&evidence).unwrap())
         .expect("write evidence");
